@@ -8,6 +8,7 @@ import collections
 import json
 import os
 import random
+import re
 import sys
 import traceback
 
@@ -261,6 +262,10 @@ def learn_schema(app, tmpl, version):
     return seen[0] if seen else None
 
 
+class RawBody(str):
+    """a request body given as text (not to be JSON-encoded)"""
+
+
 BOUNDARY_VERSIONS = (39, 37, 33, 27, 19, 14, 12, 8, 1)
 
 
@@ -285,13 +290,24 @@ def boundary_stream(tier, stats, out_probs, known_hits):
             seen_schema.add(id(sch))
             docs = schemas_mod.boundary_docs(tmpl[3], sch)
             if len(docs) > cap:
-                docs = random.Random(len(docs)).sample(docs, cap)
+                # keep every variant carrying an extreme number (nan, infinities, integers of 30+ digits), sample the rest
+                def extreme(d):
+                    try:
+                        t = json.dumps(d)
+                    except (TypeError, ValueError):
+                        return False
+                    return 'NaN' in t or 'Infinity' in t or re.search(r'\d{30}', t) is not None
+                prio = [d for d in docs if extreme(d)]
+                rest = [d for d in docs if not extreme(d)]
+                docs = prio + random.Random(len(docs)).sample(rest, min(len(rest), cap))
+            # documents nested deeper than the JSON parser's recursion limit (sent as raw text)
+            docs = [RawBody('[' * 100000 + ']' * 100000), RawBody('{"a":' * 50000 + '1' + '}' * 50000)] + docs
             app = impl.App()
             surface.setup_state(app)
             before = core(app.raw_dump())
             for doc in docs:
                 try:
-                    raw = json.dumps(doc).encode()
+                    raw = doc.encode() if isinstance(doc, RawBody) else json.dumps(doc).encode()
                 except (TypeError, ValueError):
                     continue
                 m = fuzz.mutate(random.Random(0), ('GET', '/', None, None))
